@@ -33,14 +33,15 @@ def run_unit(unit, repo='/repo', mode='partial', use_cache=True, outdir=None, ex
     so a failed obligation elsewhere is still reported. Clauses of a stubbed function are undecided, never discharged."""
     t0 = time.time()
     stub = {}
+    inline = {}      # R18: function -> helpers to inline at their call sites (a helper the function calls that is not under contract)
     last = None
     outdir = outdir or alt_outdir(repo)
-    for attempt in range(8):
-        r = _run_once(unit, repo, mode, use_cache, outdir, extra_args, rlimit, set(stub), t0)
+    for attempt in range(10):
+        r = _run_once(unit, repo, mode, use_cache, outdir, extra_args, rlimit, set(stub), t0, inline)
         if r.get('resource_limit') and not rlimit:
             # a failing (or merely slow) query ran out of the default resource budget: decide it with a four times larger one before
             # calling the unit undecided (rlimit is a deterministic z3 resource count, not wall time)
-            r2 = _run_once(unit, repo, mode, use_cache, outdir, extra_args, 40, set(stub), t0)
+            r2 = _run_once(unit, repo, mode, use_cache, outdir, extra_args, 40, set(stub), t0, inline)
             if r2.get('status') == 'ok' or not r2.get('resource_limit'):
                 r = r2
         last = r
@@ -50,7 +51,12 @@ def run_unit(unit, repo='/repo', mode='partial', use_cache=True, outdir=None, ex
         if not new:
             break
         for o in new:
-            stub[o] = r['frontend_owners'][o]
+            why = r['frontend_owners'][o]
+            mh = re.search(r'cannot find function `(\w+)` in this scope', why)
+            if mh and mh.group(1) not in inline.get(o, set()) and len(inline.get(o, set())) < 3:
+                inline.setdefault(o, set()).add(mh.group(1))      # first try to inline the unknown helper; if that does not help the function is stubbed next round
+            else:
+                stub[o] = why
     if last.get('status') == 'ok':
         st = dict(last['meta'].get('stubbed', {}))
         for k, v in stub.items():
@@ -60,9 +66,9 @@ def run_unit(unit, repo='/repo', mode='partial', use_cache=True, outdir=None, ex
     return last
 
 
-def _run_once(unit, repo, mode, use_cache, outdir, extra_args, rlimit, stub, t0):
+def _run_once(unit, repo, mode, use_cache, outdir, extra_args, rlimit, stub, t0, inline=None):
     try:
-        meta = asm.assemble(unit, repo, mode, outdir, stub=stub)
+        meta = asm.assemble(unit, repo, mode, outdir, stub=stub, inline=inline)
     except asm.AssembleError as e:
         return {'status': 'undecided', 'reason': 'assemble: %s' % e, 'unit': unit, 'mode': mode, 'wall_s': time.time() - t0}
     text = open(meta['file']).read()
